@@ -991,6 +991,19 @@ func (w *svWorkload) Next(block int) []rig.Tx {
 	if (!w.cfg.Scripted || w.n >= svPrologueLen) && w.n%37 == 20 {
 		txs = append(txs, w.coincident(v)...)
 	}
+	if (!w.cfg.Scripted || w.n >= svPrologueLen) && w.n%11 == 6 {
+		// one transaction with two calls of one consumer (their context ids differ in the message index only)
+		if mb := w.myBindings(v); len(mb) > 0 {
+			b := mb[w.run.Rng.Intn(len(mb))]
+			if p := w.byAddr[b.Provider]; p != nil && b.Available {
+				c := w.consumers[w.run.Rng.Intn(len(w.consumers))]
+				mk := func(timeout int64, freq uint64) sdk.Msg {
+					return &svtypes.MsgCallService{ServiceName: b.ServiceName, Providers: []string{b.Provider}, Consumer: c.Addr.String(), Input: svIOEmpty, ServiceFeeCap: w.hugeCap(), Timeout: timeout, Repeated: true, RepeatedFrequency: freq, RepeatedTotal: 2}
+				}
+				txs = append(txs, w.r.Mk(c, &svTag{Kind: "call", Note: "two-calls-one-tx"}, mk(2, 3), mk(3, 4)))
+			}
+		}
+	}
 	w.n++
 	return txs
 }
@@ -2731,6 +2744,28 @@ func (d *svDirector) observe(br *rig.BlockRecord) {
 		last = post
 		if tag.Hostile != "" {
 			run.Count("hostile-"+tag.Hostile+"-accepted", 1)
+		}
+		// every MsgCallService of a successful transaction creates its own request context
+		calls := 0
+		for _, m := range tx.Msgs {
+			if _, ok := m.(*svtypes.MsgCallService); ok {
+				calls++
+			}
+		}
+		if calls > 0 {
+			fresh := 0
+			for id := range post.Ctxs {
+				if _, had := pre.Ctxs[id]; !had {
+					fresh++
+				}
+			}
+			run.Eval(1)
+			if calls > 1 {
+				run.Count("several-calls-in-one-tx", 1)
+			}
+			if fresh != calls {
+				run.Violation(d.mode+":service:contexts-created-differs-from-calls", map[string]any{"height": br.Height, "msgs": msgBrief(tx.Msgs)}, "a successful transaction with %d MsgCallService created %d request contexts", calls, fresh)
+			}
 		}
 		if d.c07() {
 			d.c07Tx(br, tx, tag, pre, post)
